@@ -17,7 +17,9 @@ open VlsModel VlsModel.Monitor
 abbrev GOp := Gen.FnMonitorC14.OutPoint Nat
 abbrev GSecond := Gen.FnMonitorC14.SecondLevelHTLCOutput Nat
 abbrev GClosing := Gen.FnMonitorC14.ClosingOutpoints Nat
-abbrev GState := Gen.FnMonitorC14.State Nat
+/-- `Set<OutPoint>` (the funding inputs) is the model's list of outpoints -/
+abbrev GSet := List (Nat × Nat)
+abbrev GState := Gen.FnMonitorC14.State Nat GSet
 abbrev GChange := Gen.FnMonitorC14.StateChange Nat
 
 def toGenOp (o : OutPoint) : GOp := { txid := o.1, vout := o.2 }
@@ -40,10 +42,9 @@ def toGenClosing (c : Closing) : GClosing :=
   { txid := c.txid, our_output := c.our, htlc_outputs := c.htlcOutputs, htlc_spents := c.htlcSpents,
     second_level_htlc_outputs := c.second.map toGenSecond }
 
-/-- the eleven fields of `monitor::State` that the translated functions read or write (the funding txids / vouts /
-    inputs are only read by the push listener) -/
+/-- the fourteen fields of `monitor::State` that the translated functions read or write -/
 def toGen (s : Monitor.State) : GState :=
-  { height := s.height, funding_height := s.fundingHeight, funding_outpoint := s.fundingOutpoint.map toGenOp,
+  { height := s.height, funding_txids := s.fundingTxids, funding_vouts := s.fundingVouts, funding_inputs := s.fundingInputs, funding_height := s.fundingHeight, funding_outpoint := s.fundingOutpoint.map toGenOp,
     funding_double_spent_height := s.dsHeight, mutual_closing_height := s.mutualHeight,
     unilateral_closing_height := s.uniHeight, closing_outpoints := s.closing.map toGenClosing,
     closing_swept_height := s.closingSweptHeight, our_output_swept_height := s.ourSweptHeight,
